@@ -14,6 +14,15 @@ FLAVOURS = [
  "The defect should come from an OPTIMISATION (skipping a recomputation or a storage write when something 'has not changed', an early return for a presumed no-op, caching a value across a call that can change it, merging two loops).",
  "The defect should come from a VALIDATION GAP between two entry points that should enforce the same rule (instantiate vs update-config, create vs expand, direct call vs call on behalf / via another contract, query vs execute).",
 ]
+FLAVOURS_9 = [
+ "The defect should come from a change in the ORDER or COMBINATION OF CHECKS (a check moved behind a state change or behind the emission of a message, two conditions merged with || where && was meant or the reverse, a guard that now short-circuits past a later one).",
+ "The defect should come from a MISUNDERSTOOD HELPER CONTRACT (a function that returns an Option / a Result / a sorted or paged list / an inclusive range / a value in other units, used under the wrong assumption about what it returns in a corner case).",
+ "The defect should come from TIME or EPOCH arithmetic (an epoch off by one, the boundary instant itself, start vs end, expiry vs unlock, a duration added to the wrong base, block time equal to a boundary).",
+ "The defect should come from ALIASING OF ROLES: the same account in two roles (sender = receiver, contract owner = fee collector, farm owner = position owner, the pool manager or farm manager itself as a user) or the same denom in two roles (reward denom = LP denom, fee denom = pool asset, farm fee denom = reward denom) handled wrongly.",
+ "The defect should come from a GENERALISATION slip: code that stays right for 2 assets / one farm / one position / one hop but is wrong for 3-4 assets, several farms, several positions or several hops (index mix-up, first match instead of all, overwrite instead of accumulate).",
+ "The defect should come from SUB-MESSAGE / REPLY / RESPONSE plumbing (reply ids and payloads, the order of emitted messages, a value carried in temporary storage between two steps, attributes or data another step relies on).",
+]
+if r >= 9: FLAVOURS = FLAVOURS_9
 src = open(tmpl).read().replace("/tmp/m7", f"/tmp/m{r}")
 os.makedirs(f"/tmp/m{r}", exist_ok=True)
 open(f"/tmp/m{r}/INSTRUCTIONS.md", "w").write(src)
